@@ -2,17 +2,29 @@
 C10 — layout is insignificant: whitespace and comments never change meaning.
 
 Assembly of the lexer part (`Props/C10Lex.lean`: any two valid layouts of one token sequence lex to
-the same tokens, with no diagnostics) and the parser part (`Props/C10Parse.lean`: parsing depends
-on the tokens only, not on their spans; redundant parentheses are erased).  Everything downstream of
-the parser (resolver, analyses, evaluator models) takes the AST and never reads a span for a
-decision, so equal span-erased ASTs mean equal acceptance and equal behaviour; for the *code* that
-last step rests on the re-layout differential of the tie.
+the same tokens, with no diagnostics), the parser part (`Props/C10Parse.lean`: parsing depends
+on the tokens only, not on their spans; redundant parentheses are erased) and the part behind the
+parser (`Lemmas/SpanErase{Resolve,Analysis,Eval,Pipeline}.lean`): the resolver, the limit preflight,
+the analyses and the evaluator *commute with span erasure* — run on the span-erased program they give
+the span-erased annotated program, the same facts, the same plan, the same diagnostics / warnings /
+runtime error up to the positions attached to them.  No decision anywhere behind the parser reads a
+span; a span is only ever copied into a diagnostic, a warning or a runtime error.
+
+End to end (`c10_pipeline`): two texts that are valid layouts of one token sequence have the same
+span-insensitive observation `obs` of the shipped pipeline `Pipeline.runSource` — the stage they stop
+at, the diagnostics / warnings (severity, kind, number of labels, order), the printed values, the class
+of the ending and the runtime-error kind — for every limit configuration, run configuration and
+fuel.  `c10_redundant_parentheses_run` is the same for two parenthesisations of one program.
 -/
 import NaijaVerif.Props.C10Lex
 import NaijaVerif.Props.C10Parse
+import NaijaVerif.Props.C01Parse
+import NaijaVerif.Lemmas.SpanErasePipeline
+import NaijaVerif.Lemmas.EvalToy
 
 namespace NaijaVerif.C10
 open NaijaVerif NaijaVerif.Lex NaijaVerif.Parse NaijaVerif.Props.C10Lex NaijaVerif.C10Parse
+open NaijaVerif.SpanErase
 
 /-- **C10 (lexer + parser)**: two texts that are valid layouts of the same token sequence — any
 separators (spaces, tabs, LF, CR, CRLF, FF, `#` comments), any spelling of the multi-word keywords —
@@ -31,5 +43,385 @@ theorem layout_insignificant {lead₁ tr₁ lead₂ tr₂ : Bytes} (l₁ l₂ : 
   obtain ⟨htoks, hd1, hd2⟩ := c10_lex_layout_insensitive l₁ l₂ h₁ t₁ v₁ h₂ t₂ v₂ same
   obtain ⟨hast, _, hdiag⟩ := layout_insensitive (lex s₁).1 (lex s₂).1 htoks
   exact ⟨hast, hd1, hd2, hdiag, acceptance_layout_insensitive _ _ htoks⟩
+
+/-! ## Behind the parser, stage by stage
+
+`p`, `q` are two programs that are equal up to spans (`eraseSpans p = eraseSpans q`): what the parser
+delivers for two layouts of one token sequence. -/
+
+/-- **Resolver**: the same diagnostics up to spans (same rules in the same order, same number of
+labels), the same binding annotations (the annotated programs are equal up to spans) and THE SAME
+facts — `Facts` holds ids, names, classes and id ranges, no source span, so there is nothing to
+erase in them.  (`localsLen` / `resolveWith spanLen` speak about spans of *local ids*.) -/
+theorem span_independent_resolver {p q : Block} (h : eraseSpans p = eraseSpans q) :
+    (Resolve.resolve p).diags.map eraseDiag = (Resolve.resolve q).diags.map eraseDiag ∧
+    eraseSpans (Resolve.resolve p).root = eraseSpans (Resolve.resolve q).root ∧
+    (Resolve.resolve p).facts = (Resolve.resolve q).facts ∧
+    (hasErrors (Resolve.resolve p).diags = hasErrors (Resolve.resolve q).diags) := by
+  obtain ⟨r1, d1, f1, _⟩ := resolveWith_erase true p
+  obtain ⟨r2, d2, f2, _⟩ := resolveWith_erase true q
+  rw [h] at r1 d1 f1
+  have hd : (Resolve.resolve p).diags.map eraseDiag = (Resolve.resolve q).diags.map eraseDiag :=
+    d1.symm.trans d2
+  refine ⟨hd, r1.symm.trans r2, f1.symm.trans f2, ?_⟩
+  rw [← hasErrors_eraseDiag (Resolve.resolve p).diags, hd, hasErrors_eraseDiag]
+
+/-- **Limit preflight and analyses**: on two annotated programs that are equal up to spans, with the
+same facts: the same counts (hence the same limit decision), the same verdicts and optimisation plan,
+the same warnings in the same order up to their spans, and the same outcome of
+`emit_analysis_warnings` up to the span of the limit warning. -/
+theorem span_independent_analyses {r₁ r₂ : Block} (facts : Facts) (h : eraseSpans r₁ = eraseSpans r₂) :
+    CfgCount.countProgram r₁ facts = CfgCount.countProgram r₂ facts ∧
+    (Analysis.analyse r₁ facts).plan = (Analysis.analyse r₂ facts).plan ∧
+    (Analysis.analyse r₁ facts).unreach = (Analysis.analyse r₂ facts).unreach ∧
+    (Analysis.analyse r₁ facts).unusedAsg = (Analysis.analyse r₂ facts).unusedAsg ∧
+    (Analysis.analyse r₁ facts).unusedVar = (Analysis.analyse r₂ facts).unusedVar ∧
+    (Analysis.analyse r₁ facts).unusedFn = (Analysis.analyse r₂ facts).unusedFn ∧
+    (Analysis.analyse r₁ facts).warns.map eraseWarn = (Analysis.analyse r₂ facts).warns.map eraseWarn ∧
+    ∀ (caps : Limits.Caps) (c : Limits.Counts) (sp₁ sp₂ : Span) (planOf : Eval.Plan) (w₁ w₂ : List Diag),
+      w₁.map eraseDiag = w₂.map eraseDiag →
+      (Limits.emitAnalysis caps c sp₁ planOf w₁).plan = (Limits.emitAnalysis caps c sp₂ planOf w₂).plan ∧
+      (Limits.emitAnalysis caps c sp₁ planOf w₁).warnings.map eraseDiag
+        = (Limits.emitAnalysis caps c sp₂ planOf w₂).warnings.map eraseDiag := by
+  have hc : CfgCount.countProgram r₁ facts = CfgCount.countProgram r₂ facts := by
+    rw [← countProgram_erase r₁, ← countProgram_erase r₂]
+    exact congrArg (fun b => CfgCount.countProgram b facts) h
+  have ha := analyse_erase r₁ facts
+  rw [show eraseBlock r₁ = eraseBlock r₂ from h, analyse_erase r₂ facts] at ha
+  refine ⟨hc, (congrArg Analysis.Result.plan ha).symm, (congrArg Analysis.Result.unreach ha).symm,
+    (congrArg Analysis.Result.unusedAsg ha).symm, (congrArg Analysis.Result.unusedVar ha).symm,
+    (congrArg Analysis.Result.unusedFn ha).symm, (congrArg Analysis.Result.warns ha).symm, ?_⟩
+  intro caps c sp₁ sp₂ planOf w₁ w₂ hw
+  have e1 := emitAnalysis_erase caps c sp₁ planOf w₁
+  have e2 := emitAnalysis_erase caps c sp₂ planOf w₂
+  rw [hw] at e1
+  rw [e2] at e1
+  exact ⟨(congrArg Limits.AnalysisOut.plan e1).symm, (congrArg Limits.AnalysisOut.warnings e1).symm⟩
+
+/-- **Evaluator**: two programs that are equal up to spans (annotations included) behave
+identically under every configuration, plan and fuel: the same printed values, the same class of
+ending, the same runtime-error kind, the same panic site (`eraseOutcome` drops only the span of the
+runtime error). -/
+theorem span_independent_eval {N : Type} [NumOps N] (cfg : Eval.RunCfg) (fuel : Nat) {p q : Block}
+    (h : eraseSpans p = eraseSpans q) :
+    eraseOutcome (Eval.run cfg fuel p : Eval.Outcome N) = eraseOutcome (Eval.run cfg fuel q) := by
+  rw [← run_erase cfg fuel p, ← run_erase cfg fuel q]
+  exact congrArg (fun b => (Eval.run cfg fuel b : Eval.Outcome N)) h
+
+/-- The three stages composed as the shipped pipeline composes them (stop on a resolver error; limit
+preflight; analyses; run with the analyses' plan): two parses that are equal up to spans have the
+same observation from the resolver on. -/
+theorem span_independent_back_end {N : Type} [NumOps N] (caps : Limits.Caps) (cfg : Eval.RunCfg)
+    (fuel : Nat) {p q : Block} (h : eraseSpans p = eraseSpans q) :
+    (obs (runParsed caps cfg fuel p) : Pipeline.Result N) = obs (runParsed caps cfg fuel q) :=
+  runParsed_congr caps cfg fuel h
+
+/-! ## End to end -/
+
+/-- What `obs` keeps decides the exit status. -/
+theorem exitOk_of_obs {N : Type} {r₁ r₂ : Pipeline.Result N} (h : obs r₁ = obs r₂) :
+    Pipeline.exitOk r₁ = Pipeline.exitOk r₂ := by
+  cases r₁ with
+  | «syntax» d1 => cases r₂ <;> simp [obs] at h <;> rfl
+  | semantic d1 => cases r₂ <;> simp [obs] at h <;> rfl
+  | ran w1 o1 =>
+    cases r₂ with
+    | «syntax» d2 => simp [obs] at h
+    | semantic d2 => simp [obs] at h
+    | ran w2 o2 =>
+      simp only [obs, Pipeline.Result.ran.injEq] at h
+      cases o1 <;> cases o2 <;> simp [eraseOutcome] at h <;> rfl
+
+/-- **C10 for the shipped pipeline, from the tokens on**: two texts that the lexer turns into the
+same token kinds and payloads without a lexical diagnostic have the same observation. -/
+theorem c10_pipeline_tokens {N : Type} [NumOps N] (s₁ s₂ : Bytes)
+    (h₁ : (lex s₁).2 = []) (h₂ : (lex s₂).2 = [])
+    (htoks : (lex s₁).1.map (·.tok) = (lex s₂).1.map (·.tok))
+    (caps : Limits.Caps) (cfg : Eval.RunCfg) (fuel : Nat) :
+    (obs (Pipeline.runSource caps cfg fuel s₁) : Pipeline.Result N)
+      = obs (Pipeline.runSource caps cfg fuel s₂) := by
+  obtain ⟨hast, _, hdiag⟩ := layout_insensitive (lex s₁).1 (lex s₂).1 htoks
+  have hacc := acceptance_layout_insensitive (lex s₁).1 (lex s₂).1 htoks
+  rw [runSource_eq, runSource_eq, h₁, h₂]
+  simp only [List.nil_append]
+  by_cases hp : (parseProgram (lex s₁).1).2 = []
+  · have hp2 := hacc.1 hp
+    simp only [hp, hp2, List.isEmpty_nil, Bool.not_true, Bool.false_eq_true, if_false]
+    exact runParsed_congr caps cfg fuel hast
+  · have hp2 : ¬ (parseProgram (lex s₂).1).2 = [] := fun h => hp (hacc.2 h)
+    have e1 : (!(parseProgram (lex s₁).1).2.isEmpty) = true := by
+      cases h : (parseProgram (lex s₁).1).2 with
+      | nil => exact absurd h hp
+      | cons _ _ => rfl
+    have e2 : (!(parseProgram (lex s₂).1).2.isEmpty) = true := by
+      cases h : (parseProgram (lex s₂).1).2 with
+      | nil => exact absurd h hp2
+      | cons _ _ => rfl
+    simp only [e1, e2, if_true, obs, hdiag]
+
+/-- **C10, end to end**: two source texts that are valid layouts of the same token sequence —
+differing only in spaces, tabs, line breaks (LF, CR, CRLF), form feeds, `#` comments between tokens
+and the spelling of the whitespace inside multi-word keywords — are accepted or rejected alike and
+behave identically when run: for every limit configuration, run configuration and fuel the shipped
+pipeline stops at the same stage with the same diagnostics up to positions, or runs with the same
+warnings up to positions, prints the same values and ends in the same way (normally / with the same
+kind of runtime error / at the same panic site / out of fuel). -/
+theorem c10_pipeline {N : Type} [NumOps N] {lead₁ tr₁ lead₂ tr₂ : Bytes} (l₁ l₂ : Layout)
+    (h₁ : Sep lead₁) (t₁ : Trail tr₁) (v₁ : Valid tr₁ l₁)
+    (h₂ : Sep lead₂) (t₂ : Trail tr₂) (v₂ : Valid tr₂ l₂) (same : l₁.toks = l₂.toks)
+    (caps : Limits.Caps) (cfg : Eval.RunCfg) (fuel : Nat) :
+    (obs (Pipeline.runSource caps cfg fuel (lead₁ ++ render tr₁ l₁)) : Pipeline.Result N)
+      = obs (Pipeline.runSource caps cfg fuel (lead₂ ++ render tr₂ l₂)) := by
+  obtain ⟨htoks, hd1, hd2⟩ := c10_lex_layout_insensitive l₁ l₂ h₁ t₁ v₁ h₂ t₂ v₂ same
+  exact c10_pipeline_tokens _ _ hd1 hd2 htoks caps cfg fuel
+
+/-- … in particular the same exit status. -/
+theorem c10_exit_status {N : Type} [NumOps N] {lead₁ tr₁ lead₂ tr₂ : Bytes} (l₁ l₂ : Layout)
+    (h₁ : Sep lead₁) (t₁ : Trail tr₁) (v₁ : Valid tr₁ l₁)
+    (h₂ : Sep lead₂) (t₂ : Trail tr₂) (v₂ : Valid tr₂ l₂) (same : l₁.toks = l₂.toks)
+    (caps : Limits.Caps) (cfg : Eval.RunCfg) (fuel : Nat) :
+    Pipeline.exitOk (Pipeline.runSource caps cfg fuel (lead₁ ++ render tr₁ l₁) : Pipeline.Result N)
+      = Pipeline.exitOk (Pipeline.runSource caps cfg fuel (lead₂ ++ render tr₂ l₂) : Pipeline.Result N) :=
+  exitOk_of_obs (c10_pipeline l₁ l₂ h₁ t₁ v₁ h₂ t₂ v₂ same caps cfg fuel)
+
+/-- **Redundant parentheses, end to end** (the counterpart of `C10Parse.redundant_parentheses` /
+`C01Parse.program_round_trip` for whole programs): let `b` be a canonical program and `p`, `q` two
+choices of redundant parentheses (any number of pairs around any sub-expressions).  Two texts — in
+any layout — that lex without a diagnostic to the tokens of `b` printed with `p` resp. `q` are both
+accepted by the parser, parse to `b` up to spans, and have the same observation of the shipped
+pipeline: same acceptance, same warnings, same printed values, same ending. -/
+theorem c10_redundant_parentheses_run {N : Type} [NumOps N] (p q : Expr → Nat) (b : Block)
+    (hp : CanonBlock p b) (hq : CanonBlock q b) (s₁ s₂ : Bytes)
+    (h₁ : (lex s₁).2 = []) (h₂ : (lex s₂).2 = [])
+    (t₁ : (lex s₁).1.map (·.tok) = (programToks p b).map (·.tok))
+    (t₂ : (lex s₂).1.map (·.tok) = (programToks q b).map (·.tok))
+    (caps : Limits.Caps) (cfg : Eval.RunCfg) (fuel : Nat) :
+    (parseProgram (lex s₁).1).2 = [] ∧ (parseProgram (lex s₂).1).2 = [] ∧
+    eraseSpans (parseProgram (lex s₁).1).1 = eraseSpans b ∧
+    eraseSpans (parseProgram (lex s₂).1).1 = eraseSpans b ∧
+    (obs (Pipeline.runSource caps cfg fuel s₁) : Pipeline.Result N)
+      = obs (Pipeline.runSource caps cfg fuel s₂) := by
+  have key : ∀ (r : Expr → Nat) (s : Bytes), CanonBlock r b →
+      (lex s).1.map (·.tok) = (programToks r b).map (·.tok) →
+      (parseProgram (lex s).1).2 = [] ∧ eraseSpans (parseProgram (lex s).1).1 = eraseSpans b := by
+    intro r s hr ht
+    obtain ⟨hast, _, hdiag⟩ := layout_insensitive (lex s).1 (programToks r b) ht
+    rw [C01Parse.program_round_trip r b hr] at hast hdiag
+    exact ⟨by simpa using hdiag, hast⟩
+  obtain ⟨d1, a1⟩ := key p s₁ hp t₁
+  obtain ⟨d2, a2⟩ := key q s₂ hq t₂
+  refine ⟨d1, d2, a1, a2, ?_⟩
+  rw [runSource_eq, runSource_eq, h₁, h₂, d1, d2]
+  simp only [List.append_nil, List.isEmpty_nil, Bool.not_true, Bool.false_eq_true, if_false]
+  exact runParsed_congr caps cfg fuel (a1.trans a2.symm)
+
+/-- The same for texts given as valid layouts of the two printed token sequences. -/
+theorem c10_redundant_parentheses_layouts {N : Type} [NumOps N] (p q : Expr → Nat) (b : Block)
+    (hp : CanonBlock p b) (hq : CanonBlock q b) {lead₁ tr₁ lead₂ tr₂ : Bytes} (l₁ l₂ : Layout)
+    (h₁ : Sep lead₁) (t₁ : Trail tr₁) (v₁ : Valid tr₁ l₁)
+    (h₂ : Sep lead₂) (t₂ : Trail tr₂) (v₂ : Valid tr₂ l₂)
+    (k₁ : l₁.toks = printBlock p b) (k₂ : l₂.toks = printBlock q b)
+    (caps : Limits.Caps) (cfg : Eval.RunCfg) (fuel : Nat) :
+    (obs (Pipeline.runSource caps cfg fuel (lead₁ ++ render tr₁ l₁)) : Pipeline.Result N)
+      = obs (Pipeline.runSource caps cfg fuel (lead₂ ++ render tr₂ l₂)) := by
+  obtain ⟨a1, a2⟩ := c10_lex_roundtrip h₁ t₁ l₁ v₁
+  obtain ⟨b1, b2⟩ := c10_lex_roundtrip h₂ t₂ l₂ v₂
+  have e : ∀ r : Expr → Nat, (programToks r b).map (·.tok) = printBlock r b ++ [.eof] := by
+    intro r
+    simp [programToks, mkTok, List.map_map, Function.comp_def]
+  exact (c10_redundant_parentheses_run p q b hp hq _ _ a2 b2 (by rw [a1, k₁, e]) (by rw [b1, k₂, e])
+    caps cfg fuel).2.2.2.2
+
+
+/-! ## Non-vacuity (toy `Int` numbers of `Lemmas/EvalToy.lean`, limits nothing trips on) -/
+
+section Examples
+open NaijaVerif.Eval
+
+/-- Limits nothing trips on. -/
+def roomyCaps : Limits.Caps :=
+  { maxFunctions := 1000, maxLocals := 1000, maxScopes := 1000, maxStatements := 1000, maxTotalOps := 100000,
+    maxOpsPerFunction := 100000, maxTotalBlocks := 100000, maxBlocksPerFunction := 100000,
+    maxDirectUserCalls := 1000, maxSummaryEvents := 100000, maxLivenessEvents := 100000 }
+
+/-- What a pipeline result with the toy numbers shows: stage (0 syntax, 1 semantic, 2 ran), the
+diagnostic / warning kinds, the printed texts, the ending (0 normal, 1 runtime error, 2 panic,
+3 out of fuel), the runtime-error kind. -/
+def shown : Pipeline.Result Int → Nat × List DiagKind × List Bytes × Nat × Option RtKind
+  | .syntax ds => (0, ds.map (·.kind), [], 0, none)
+  | .semantic ds => (1, ds.map (·.kind), [], 0, none)
+  | .ran ws o => (2, ws.map (·.kind), (Toy.summary o).1, (Toy.summary o).2, Toy.rtKind o)
+
+/-- Every position a pipeline result carries. -/
+def positions : Pipeline.Result Int → List Span
+  | .syntax ds => ds.map (·.span)
+  | .semantic ds => ds.map (·.span)
+  | .ran ws (.rt _ sp _) => ws.map (·.span) ++ [sp]
+  | .ran ws _ => ws.map (·.span)
+
+/-- a program that prints, on one line … -/
+def printsA : Bytes := b!"make x get 1 add 2 shout(x) shout(x times x)"
+/-- … and with a leading blank line, comments, tabs, CRLF, a statement per line, an unfinished
+comment at the end -/
+def printsB : Bytes :=
+  b!"\n# sum\nmake x get 1 add 2   # three\r\nshout ( x )\n\tshout(x\ttimes\n x)\n# end"
+
+-- two layouts of one token sequence (at different positions), no lexical diagnostics
+example : (lex printsA).2 = [] ∧ (lex printsB).2 = [] ∧
+    (lex printsA).1.map (·.tok) = (lex printsB).1.map (·.tok) ∧
+    (lex printsA).1.map (·.span) ≠ (lex printsB).1.map (·.span) := by decide +kernel
+
+/-- an instance of `c10_pipeline_tokens`: whatever the limits, the configuration and the fuel -/
+example (caps : Limits.Caps) (cfg : RunCfg) (fuel : Nat) :
+    (obs (Pipeline.runSource caps cfg fuel printsA) : Pipeline.Result Int)
+      = obs (Pipeline.runSource caps cfg fuel printsB) :=
+  c10_pipeline_tokens printsA printsB (by decide +kernel) (by decide +kernel) (by decide +kernel) caps cfg fuel
+
+-- … and what is observed is a run that prints `3` and `9` and ends normally
+example : shown (Pipeline.runSource roomyCaps Toy.cfg 30 printsA) = (2, [], [b!"3", b!"9"], 0, none) ∧
+    shown (Pipeline.runSource roomyCaps Toy.cfg 30 printsB) = (2, [], [b!"3", b!"9"], 0, none) := by
+  decide +kernel
+
+/-- a program with an unused variable that prints and then divides by zero, in two layouts -/
+def failsA : Bytes := b!"make u get 5 shout(7) shout(1 divide 0) shout(8)"
+def failsB : Bytes := b!"make u get 5 # unused\nshout(7)\n\nshout( 1\n  divide 0 )\nshout(8)\n"
+
+example : (lex failsA).2 = [] ∧ (lex failsB).2 = [] ∧
+    (lex failsA).1.map (·.tok) = (lex failsB).1.map (·.tok) := by decide +kernel
+
+example (caps : Limits.Caps) (cfg : RunCfg) (fuel : Nat) :
+    (obs (Pipeline.runSource caps cfg fuel failsA) : Pipeline.Result Int)
+      = obs (Pipeline.runSource caps cfg fuel failsB) :=
+  c10_pipeline_tokens failsA failsB (by decide +kernel) (by decide +kernel) (by decide +kernel) caps cfg fuel
+
+-- both runs warn about `u` (unused assignment, unused variable), print `7`, and end with
+-- `DivisionByZero` — reported at different positions, which `obs` leaves out
+example :
+    shown (Pipeline.runSource roomyCaps Toy.cfg 30 failsA)
+      = (2, [.unusedAssignment, .unusedVariable], [b!"7"], 1, some .divisionByZero) ∧
+    shown (Pipeline.runSource roomyCaps Toy.cfg 30 failsB)
+      = (2, [.unusedAssignment, .unusedVariable], [b!"7"], 1, some .divisionByZero) := by
+  decide +kernel
+
+example : positions (Pipeline.runSource roomyCaps Toy.cfg 30 failsA)
+    ≠ positions (Pipeline.runSource roomyCaps Toy.cfg 30 failsB) := by
+  decide +kernel
+
+/-- a text the resolver rejects, in two layouts: rejected alike -/
+def rejectedA : Bytes := b!"shout(y)"
+def rejectedB : Bytes := b!"shout # what?\n(\ty )"
+
+example (caps : Limits.Caps) (cfg : RunCfg) (fuel : Nat) :
+    (obs (Pipeline.runSource caps cfg fuel rejectedA) : Pipeline.Result Int)
+      = obs (Pipeline.runSource caps cfg fuel rejectedB) :=
+  c10_pipeline_tokens rejectedA rejectedB (by decide +kernel) (by decide +kernel) (by decide +kernel) caps cfg fuel
+
+example : shown (Pipeline.runSource roomyCaps Toy.cfg 30 rejectedA) = (1, [.undeclaredIdentifier], [], 0, none) ∧
+    shown (Pipeline.runSource roomyCaps Toy.cfg 30 rejectedB) = (1, [.undeclaredIdentifier], [], 0, none) := by
+  decide +kernel
+
+
+/-! ### `c10_pipeline` itself, on two explicit layouts of `shout ( 1 )` -/
+
+/-- `shout(1)` without any separator -/
+def tightL : Layout :=
+  [((.ident (b!"shout"), b!"shout"), []), ((.lparen, b!"("), []), ((.num (b!"1"), b!"1"), []),
+   ((.rparen, b!")"), [])]
+
+/-- the same tokens with a comment, a TAB, a CRLF and a line end between them -/
+def looseL : Layout :=
+  [((.ident (b!"shout"), b!"shout"), b!" # c\n"), ((.lparen, b!"("), b!"\t"), ((.num (b!"1"), b!"1"), b!"\r\n"),
+   ((.rparen, b!")"), b!"\n")]
+
+theorem shout_not_multiword : ∀ alts, multiWord.lookup (b!"shout") = some alts →
+    ∀ (p : Nat) (rest : Bytes), tryAlts alts ⟨p, rest⟩ = none := by
+  intro alts h
+  have hn : multiWord.lookup (b!"shout") = none := by decide
+  rw [hn] at h; cases h
+
+theorem tightL_valid : Valid [] tightL := by
+  refine ⟨Lexeme.ident _ (by decide) (by decide), Sep.nil, ⟨?_, fun alts h p => shout_not_multiword alts h p _⟩,
+    Lexeme.punct 40 _ (by decide), Sep.nil, trivial,
+    Lexeme.numInt _ (by decide) (by decide), Sep.nil, ⟨?_, ?_, ?_⟩,
+    Lexeme.punct 41 _ (by decide), Sep.nil, trivial, trivial⟩
+  · intro b r h; cases h; decide
+  · intro b r h; cases h; decide
+  · intro b r h; cases h; decide
+  · exact Or.inr (by intro b r h; cases h; decide)
+
+theorem looseL_valid : Valid (b!"# end") looseL := by
+  refine ⟨Lexeme.ident _ (by decide) (by decide),
+    Sep.ws 32 _ (by decide) (Sep.comment (b!" c") 10 [] (by decide) (by decide) Sep.nil),
+    ⟨?_, fun alts h p => shout_not_multiword alts h p _⟩,
+    Lexeme.punct 40 _ (by decide), Sep.ws 9 [] (by decide) Sep.nil, trivial,
+    Lexeme.numInt _ (by decide) (by decide), Sep.ws 13 _ (by decide) (Sep.ws 10 [] (by decide) Sep.nil),
+    ⟨?_, ?_, ?_⟩,
+    Lexeme.punct 41 _ (by decide), Sep.ws 10 [] (by decide) Sep.nil, trivial, trivial⟩
+  · intro b r h; cases h; decide
+  · intro b r h; cases h; decide
+  · intro b r h; cases h; decide
+  · exact Or.inr (by intro b r h; cases h; decide)
+
+example : render [] tightL = b!"shout(1)" ∧
+    b!"\n" ++ render (b!"# end") looseL = b!"\nshout # c\n(\t1\r\n)\n# end" := by decide
+
+/-- an instance of `c10_pipeline`: every hypothesis is satisfied -/
+example (caps : Limits.Caps) (cfg : RunCfg) (fuel : Nat) :
+    (obs (Pipeline.runSource caps cfg fuel ([] ++ render [] tightL)) : Pipeline.Result Int)
+      = obs (Pipeline.runSource caps cfg fuel (b!"\n" ++ render (b!"# end") looseL)) :=
+  c10_pipeline tightL looseL Sep.nil (Or.inl rfl) tightL_valid
+    (Sep.ws 10 [] (by decide) Sep.nil) (Or.inr ⟨b!" end", rfl, by decide⟩) looseL_valid rfl caps cfg fuel
+
+example : shown (Pipeline.runSource roomyCaps Toy.cfg 30 ([] ++ render [] tightL)) = (2, [], [b!"1"], 0, none) ∧
+    shown (Pipeline.runSource roomyCaps Toy.cfg 30 (b!"\n" ++ render (b!"# end") looseL))
+      = (2, [], [b!"1"], 0, none) := by
+  decide +kernel
+
+/-! ### redundant parentheses -/
+
+/-- `make x get 1 add 2 times 3  shout(x)` as a canonical tree -/
+def parProg : Block :=
+  .mk [.assign (b!"x") zspan
+          (.binary .add (.num (b!"1") zspan)
+            (.binary .times (.num (b!"2") zspan) (.num (b!"3") zspan) zspan) zspan) none none zspan,
+       .expr (.call (.var (b!"shout") none zspan) [.var (b!"x") none zspan] none zspan) none zspan] zspan
+
+/-- one pair around every number and around `x`, two pairs around the product -/
+def parQ : Expr → Nat
+  | .num _ _ => 1
+  | .binary .times _ _ _ => 2
+  | .var [120] _ _ => 1
+  | _ => 0
+
+def parA : Bytes := b!"make x get 1 add 2 times 3 shout(x)"
+def parB : Bytes := b!"make x get (1) add (((2) times (3)))\nshout((x)) # same"
+
+theorem parProg_canon (r : Expr → Nat) (hr : r (.call (.var (b!"shout") none zspan) [.var (b!"x") none zspan] none zspan) = 0)
+    (hv : r (.var (b!"shout") none zspan) = 0) : CanonBlock r parProg := by
+  simp only [parProg, CanonBlock, CanonStmts, CanonStmt, WF, WFs, isBareRet, and_self, true_and]
+  refine ⟨b!"shout", ?_⟩
+  have n1 : needs 0 (.call (.var (b!"shout") none zspan) [.var (b!"x") none zspan] none zspan) = false := by
+    decide
+  have n2 : needs postfixLevel (.var (b!"shout") none zspan) = false := by decide
+  simp only [printAt, wrap, wrapN, hr, hv, n1, n2, Bool.false_eq_true, if_false]
+  exact ⟨_, rfl⟩
+
+example : (lex parA).1.map (·.tok) = (programToks (fun _ => 0) parProg).map (·.tok) ∧
+    (lex parB).1.map (·.tok) = (programToks parQ parProg).map (·.tok) ∧
+    (lex parA).1.map (·.tok) ≠ (lex parB).1.map (·.tok) := by decide +kernel
+
+/-- an instance of `c10_redundant_parentheses_run` -/
+example (caps : Limits.Caps) (cfg : RunCfg) (fuel : Nat) :
+    (obs (Pipeline.runSource caps cfg fuel parA) : Pipeline.Result Int)
+      = obs (Pipeline.runSource caps cfg fuel parB) :=
+  (c10_redundant_parentheses_run (fun _ => 0) parQ parProg (parProg_canon _ rfl rfl) (parProg_canon _ rfl rfl)
+    parA parB (by decide +kernel) (by decide +kernel) (by decide +kernel) (by decide +kernel) caps cfg fuel).2.2.2.2
+
+-- both print `7`
+example : shown (Pipeline.runSource roomyCaps Toy.cfg 30 parA) = (2, [], [b!"7"], 0, none) ∧
+    shown (Pipeline.runSource roomyCaps Toy.cfg 30 parB) = (2, [], [b!"7"], 0, none) := by
+  decide +kernel
+
+end Examples
 
 end NaijaVerif.C10
